@@ -303,6 +303,31 @@ func (h *c17Harness) checkFinalisedChain(bs *BlockState, where string) error {
 			return fmt.Errorf("%s: GetHeader of finalised b%d: %v, %v", where, i, hdr, err)
 		}
 	}
+	// ancestry stays what the parent links say once blocks have left the block tree:
+	// a finalised block below the head is an ancestor of every retrievable block above
+	// it on its chain, and no block is a descendant of a block with a higher number
+	for f := m.blocks[m.head].parent; f >= 0; f = m.blocks[f].parent {
+		for x := range m.blocks {
+			bx := m.blocks[x]
+			if x == f || bx.abandoned || !(m.live(x) || m.onFinalisedChain(x)) {
+				continue
+			}
+			if bs != h.bs && !m.onFinalisedChain(x) {
+				continue // a reopened state holds the finalised chain only
+			}
+			want := m.isDescOrEq(f, x)
+			got, err := bs.IsDescendantOf(m.blocks[f].hash, bx.hash)
+			if err != nil || got != want {
+				return fmt.Errorf("%s: IsDescendantOf(ancestor = finalised b%d #%d, descendant = b%d #%d) = %v, %v; parent links say %v", where, f, m.blocks[f].number, x, bx.number, got, err, want)
+			}
+			if bx.number > m.blocks[f].number {
+				got, err := bs.IsDescendantOf(bx.hash, m.blocks[f].hash)
+				if err != nil || got {
+					return fmt.Errorf("%s: IsDescendantOf(ancestor = b%d #%d, descendant = finalised b%d #%d) = %v, %v; a block cannot descend from a higher one", where, x, bx.number, f, m.blocks[f].number, got, err)
+				}
+			}
+		}
+	}
 	return nil
 }
 
